@@ -12,6 +12,23 @@ CHECKS = {
          "operation sequences + random histories, every step compared) and the Lean spec is also evaluated on the implementation's own states.",
     ref="DESIGN.md section 8 C13", technique="Lean 4 proof (invariant by induction over operation histories) + model/code correspondence",
     note=BASE_NOTE + " numpy.nan stored inside a GroupedList and bool values are outside the modelled universe."),
+ "C04": dict(
+    text="Lean theorems about the executable model of BaseDiscretizer's label table and transform (select(x<=leader) is the first leader >= x and "
+         "equals the specification's group; +inf makes the lookup total; float labels are ranks; qualitative str labels are the distinct leaders; "
+         "a column is the cell-wise lookup or the missing-value AssertionError). The model is tied to the code by running labels_per_values and "
+         "transform of real fitted objects (all classes, also rebuilt from JSON) against the model, and the Lean specification (Spec/Discretizer.lean: "
+         "each row carries the label of the unique group containing it, distinct groups have distinct labels, float labels are ranks, missing values "
+         "per dropna) is evaluated on the implementation's own output.",
+    ref="DESIGN.md section 8 C04", technique="Lean 4 proof about a model of labels/transform + model/code correspondence on fitted objects",
+    note=BASE_NOTE + " DataFrame.replace / numpy.select are abstracted to dict lookup by Python equality / first match; that distinct doubles get distinct 17-digit labels is an IEEE fact, not proved."),
+ "C05": dict(
+    text="Lean theorems: on a fitted quantitative state (numeric leaders incl. +inf, every leader labelled) every number gets a fitted label and the only "
+         "rejection is the AssertionError naming the feature, raised exactly for unexpected missing values; a qualitative column is accepted with fitted labels only "
+         "(unseen -> default group's label) or rejected with that AssertionError (unseen without default group, unexpected missing). Tied to the code by transforming "
+         "probe frames (boundaries and their float neighbours, extremes, unseen categories, missing values, empty/one-row frames) with real fitted objects and with the model; "
+         "the Lean predicate colAllowed judges the implementation's output.",
+    ref="DESIGN.md section 8 C05", technique="Lean 4 proof (totality / decision logic of transform) + model/code correspondence on probe frames",
+    note=BASE_NOTE + " Frames lacking a fitted column are outside the property's quantifier (correspondence only)."),
 }
 NOT_YET = "check not built yet (construction in progress, see DESIGN.md section 13); will be claimed once its model, theorems and correspondence exist"
 
